@@ -19,6 +19,13 @@ run). What holds, for every MDS code, every well-formed (d, p, stripe) and every
 The excluded triggers are exactly the witnesses: an altered `dataBytes` field, a shard of another
 part, every shard damaged (no intact one), a trailing frame-sized garbage, and — for healing — a
 missing PARITY shard.
+
+Variants (`Fix`): the theorems hold for every setting of the switches. /repo now carries
+`notFoundWhenAllMissing` and `healParity` (so `missing_parity_shard_not_restored` is a theorem about the
+variant before that repair); `endWhenEnoughEnded` and `failWhenTooFewOpen` are proposed
+(`trailing_bytes_tolerated_when_repaired`, `all_shards_unopenable_fails_when_repaired`); what no repair
+short of a format change cures: `databytes_field_not_authenticated`, `foreign_shard_accepted`,
+`all_shards_cut_behind_header_read_empty`.
 -/
 import Pithos.Lemmas.ErasureCodingKinds
 import Pithos.Lemmas.ErasureCodingHeal
